@@ -103,22 +103,26 @@ pub struct EigCase {
     pub weighted: bool,
     pub max_iter: u32,
     pub tol_exp: u32,
+    /// the implementation sees every weight divided by this number (3, 7, 10: decimal weights that are exact neither in f64
+    /// nor in any narrower format); the model and the checker divide the same way
+    pub wden: u64,
 }
 impl EigCase {
     pub fn request(&self) -> String {
-        format!("eig {} {} {} {}", self.g.tokens(), self.weighted as u8, self.max_iter, self.tol_exp)
+        format!("eig {} {} {} {} {}", self.g.tokens(), self.weighted as u8, self.max_iter, self.tol_exp, self.wden)
     }
     pub fn parse(t: &mut Toks) -> EigCase {
         let g = GraphCase::parse(t);
         let weighted = t.next() != 0;
         let max_iter = t.next() as u32;
         let tol_exp = t.next() as u32;
-        EigCase { g, weighted, max_iter, tol_exp }
+        let wden = t.next() as u64;
+        EigCase { g, weighted, max_iter, tol_exp, wden }
     }
 }
 
 pub fn observe_eig(c: &EigCase) -> String {
-    let g = match c.g.build() {
+    let g = match if c.wden <= 1 { c.g.build() } else { c.g.build_divided(c.wden as f64) } {
         Ok(g) => g,
         Err(e) => return format!("i.build=E{}", err_code(&e.kind)),
     };
@@ -148,7 +152,7 @@ pub fn gen_eig(rng: &mut Rng, _profile: &str, size: usize) -> EigCase {
     };
     let max_iter = *rng.pick(&[1u32, 2, 3, 5, 10, 30, 100, 100, 300]);
     let tol_exp = rng.range(2, 12) as u32;
-    EigCase { g: gen_graph(rng, &o), weighted, max_iter, tol_exp }
+    EigCase { g: gen_graph(rng, &o), weighted, max_iter, tol_exp, wden: *rng.pick(&[1u64, 1, 10, 10, 7, 3]) }
 }
 
 pub fn candidates_eig(c: &EigCase) -> Vec<String> {
